@@ -573,6 +573,14 @@ def do_step(st, op):
 # ----------------------------------------------------------------------------- initial objects
 
 def deblend_scene(k=0):
+    if k == 2:
+        # two bright blended sources and a faint one nearer the top edge: the faint one is the
+        # first marker in raster order and is dropped by the contrast criterion
+        yy, xx = np.mgrid[0:41, 0:61]
+
+        def g(a, x0, y0, s):
+            return a * np.exp(-((xx - x0) ** 2 + (yy - y0) ** 2) / (2.0 * s * s))
+        return g(6, 30, 9, 3) + g(60, 18, 24, 5) + g(50, 42, 24, 5)
     yy, xx = np.mgrid[0:14, 0:16]
     img = np.zeros(xx.shape)
     src = [(4, 4, 50.0), (8, 5, 35.0), (12, 10, 40.0)] if k == 0 else [(3, 3, 40.0), (7, 4, 45.0), (11, 9, 30.0), (13, 11, 28.0)]
@@ -607,10 +615,13 @@ def build_init(spec):
             return St(seg, seg.data.copy(), {})
         if kind == 'deblend':
             img = deblend_scene(spec['scene'])
-            s0 = detect_sources(img, 1.0, 4)
+            npix = spec.get('npixels', 4)
+            s0 = detect_sources(img, 1.0, npix)
             if spec.get('gap'):
                 s0.relabel_consecutive(start_label=3)
-            seg = deblend_sources(img, s0, 4, nlevels=16, contrast=0.001, relabel=spec['relabel'], progress_bar=False)
+            seg = deblend_sources(img, s0, npix, nlevels=spec.get('nlevels', 16),
+                                  contrast=spec.get('contrast', 0.001), mode=spec.get('mode', 'exponential'),
+                                  relabel=spec['relabel'], progress_bar=False)
             emap = {int(k): [int(v) for v in ch] for k, ch in seg._deblend_label_map.items()}
             return St(seg, seg.data.copy(), emap)
     raise KeyError(kind)
@@ -740,6 +751,12 @@ def run(ctx):
         _FORCE[0] = True
 
     overflow_stage(ctx)
+    # deblended images whose first marker was dropped by the contrast criterion: bookkeeping only
+    for relabel in (False, True):
+        spec = {'kind': 'deblend', 'scene': 2, 'relabel': relabel, 'npixels': 5, 'nlevels': 32,
+                'contrast': 0.02, 'mode': 'linear'}
+        st = build_init(spec)
+        initial_checks(ctx, spec, st)
     stats = {'nodes': 0}
     specs = EXHAUSTIVE_THOROUGH if ctx.thorough else EXHAUSTIVE_QUICK
     for spec in specs:
